@@ -14,6 +14,7 @@ import (
 	"sort"
 	"strconv"
 	"strings"
+	"sync"
 
 	"go.dedis.ch/onet/v3/simul"
 	"go.dedis.ch/onet/v3/simul/platform"
@@ -70,12 +71,19 @@ func (p *c19multiPlatform) Deploy(rc *platform.RunConfig) error {
 	p.cur = &c19platform{port: p.port, parts: spec.wire}
 	return nil
 }
-func (p *c19multiPlatform) Start(args ...string) error {
+func (p *c19multiPlatform) Start(args ...string) (err error) {
+	// RunTest calls Start in a routine of its own: a panic here would end the harness process
+	defer func() {
+		if r := recover(); r != nil {
+			p.portTrouble = true
+			err = fmt.Errorf("c19: platform start: %v", r)
+		}
+	}()
 	if p.cur == nil {
 		return errors.New("c19: nothing deployed")
 	}
 	p.started++
-	err := p.cur.Start(args...)
+	err = p.cur.Start(args...)
 	if err != nil {
 		p.portTrouble = true
 	}
@@ -170,7 +178,13 @@ func c19docRange(r string, n int) (lo, hi int, ok bool) {
 	return 0, 0, false
 }
 
+// c19runTestsMu: RunTests works with process-wide state (the flags -mport / -range / -nobuild, the working
+// directory): one at a time, also when an earlier case was given up as hung and still runs
+var c19runTestsMu sync.Mutex
+
 func (e *c19env) runTests(tk []string, fail func(sig, msg string)) string {
+	c19runTestsMu.Lock()
+	defer c19runTestsMu.Unlock()
 	name, rng := tk[2], tk[3]
 	pre, err := strconv.Atoi(tk[4])
 	if !c19fnameRe.MatchString(name) || (rng != "-" && !c19rangeRe.MatchString(rng)) || err != nil || pre < 0 || pre > 6 || strconv.Itoa(pre) != tk[4] || e.mon != nil {
